@@ -405,11 +405,12 @@ theorem select_spec (b : MsgBuf) (hn : b.keys.Nodup) (hkey : ∀ e ∈ b.entries
 
 example : select Cfg.fixed ((GoMap.make.insert 1 ⟨1, 1, 5⟩).insert 2 ⟨1, 2, 6⟩) 5 [2, 1, 3] = .ok [1] := by decide
 
-/-- FINDING (driver-level specification of `select`, not the pool): `Spec.select` applied to the *raw list*
-of a `select` line is not what Go computes when the list names a validator twice with different roots —
+/-- Note on the driver-level specification of a `select` line (not the pool): `Spec.select` applied to the
+*raw list* of the line is not what Go computes when the list names a validator twice with different roots —
 the Go map (and the model's `msgBuf`) keeps the later message only. Witness line: `select 5 1 1:5,1:6`
-(model and Go `ok -`, `Spec.select` on the raw list `ok 1`). On the list of messages a buffer actually
-holds (`msgsOf b`) the two agree (`select_spec`). -/
+(model and Go `ok -`, `Spec.select` on the raw list `ok 1`). The driver therefore applies `Spec.select` to
+the last message per validator (`Driver.lastPerValidator`), and the generator emits this line. On the list
+of messages a buffer actually holds (`msgsOf b`) model and specification agree (`select_spec`). -/
 theorem select_rawlist_spec_mismatch :
     select Cfg.fixed ((GoMap.make.insert 1 ⟨1, 1, 5⟩).insert 1 ⟨1, 1, 6⟩) 5 [1] = .ok [] ∧
     Spec.select [⟨1, 1, 5⟩, ⟨1, 1, 6⟩] 5 [1] = [1] := by decide
